@@ -7,39 +7,60 @@ Streams (all seeded by VERIF_SEED):
              independent encoders (the Lean reference encoder under random policies, nghttp2's
              deflater, lshpack's own encoder as used by h2_send_headers) are decoded by
              lshpack_dec_decode the way h2_parse_headers_frame / h2_discard_headers_frame do
-             (served and discarded blocks mixed, table size changes) -- must give exactly the
-             encoded lists and the same table as the model, and nghttp2's inflater must agree
+             (served and discarded blocks mixed; lshpack_dec_set_max_capacity at library level only)
+             -- must give exactly the encoded lists and the same table as the model, nghttp2's inflater
+             must agree; a decoding error in a discarded block must end the connection too
   conn-corrupt all single-bit and many single-byte corruptions of short valid blocks: error or the
              same list as the model and (when both accept) as nghttp2 -- never silently different
   resp       the real h2_send_headers / h2_send_1xx / h2_send_end_stream_trailers / h2_send_hpack on an
              in-process connection: frames checked, block decoded by nghttp2, list compared with the
-             Lean glue model and an independent Python statement of the response's fields
+             Lean glue model and an independent Python statement of the response's fields; responses
+             steered into the last octets before the 65535 limit with values HPACK cannot shrink
   req        the real h2_parse_frames / h2_recv_continuation / h2_recv_headers: HEADERS(+CONTINUATION,
              PADDED, PRIORITY) sequences incl. refused streams, trailers, streams after GOAWAY, requests
-             the header parser refuses half way; outcome + final HPACK decoder table against the Lean
-             model, outcome + request view against an independent Python statement (PyGlue)
+             the header parser refuses half way, trailers after an unfinished body, legal fields larger
+             than the 64 KiB decoding buffer in served AND discarded blocks; outcome + final HPACK decoder
+             table against the Lean model, outcome + request view against an independent Python
+             statement (PyGlue)
 """
 import random
 from .. import common as C
 
 MANIFEST = dict(
-    text="Lean 4 theorems over an executable model of HPACK as implemented by ls-hpack and used by h2.c: "
-         "integer and string coding, Huffman (4-bit automaton over the extracted decode_tables, proved "
-         "equal to the code tree of the extracted encode_table by kernel-checked certificates: round trip "
-         "AND every accepted string is canonical), static + dynamic table with eviction and size updates, "
-         "the decode loops of h2_parse_headers_frame / h2_discard_headers_frame, a policy-parameterised "
-         "reference encoder standing for any conformant peer: round trip for every header list / choice "
-         "sequence / table size, tables in sync over whole connections incl. discarded blocks and SETTINGS "
-         "changes, table size bound for arbitrary input, unambiguity, error theorems; response glue "
-         "(lower-casing, repeated-field split, id maps consistent); model tied to the C by differential "
-         "runs under ASan/UBSan (lshpack.c statics, real h2.c request and response paths in-process) with "
-         "nghttp2 as a second independent HPACK peer",
-    note="trusted: Lean kernel (+propext, Quot.sound, Classical.choice), hand-written model validated by "
-         "the h_hpack correspondence; static table, Huffman encode/decode tables, header-id maps and "
-         "constants are regenerated from lshpack.c/huff-tables.h/h2.c/http_header.c on every run (a changed "
-         "entry breaks a proof obligation); lshpack's own choice of encoding is not modelled (its output is "
-         "decoded by nghttp2 and by the model); content rules of http_request_parse_header are an input of "
-         "the glue model; three upstream leniencies are modelled as they are (c07_deviation_*)",
+    text="Lean 4 theorems over an executable model of HPACK as implemented by ls-hpack and used by h2.c. PROVED "
+         "(model level): integer / string / Huffman coding round trips, and every Huffman string the 4-bit "
+         "automaton accepts is canonical (extracted tables, kernel-checked certificates); one block and whole "
+         "connections of served + discarded blocks decode to exactly the encoded lists with equal tables "
+         "(fields that fit the buffer), and WITHOUT any size assumption: error or exactly the list, never "
+         "another one (c07_block_error_or_exact, c07_never_silently_different); which HEADERS sequences "
+         "h2_recv_headers decodes: dead connection, frame left unread, or decoded to the end — tables equal "
+         "along any sequence while no error GOAWAY was sent (c07_headers_decoded_or_dead, "
+         "c07_glue_tables_sync); table size bound and hint soundness for ARBITRARY input (c07_table_bound, "
+         "c07_hint_sound, c07_hint_selects_id); four classes of invalid items after any valid prefix are "
+         "BAD_DATA with exactly the prefix delivered (c07_error_after_valid_prefix; the general 'invalid => "
+         "error' is false of lshpack and stays _partial); response direction: list handed to the encoder for "
+         "responses built through the response-header API without repeated fields (c07_response_fields), it "
+         "always fits the 128 KiB encoding buffer (c07_response_fits_buffer), lower-cased names, repeated-field "
+         "split for one name, interim / trailer / raw blocks cut back to the written fields, table size "
+         "updates after SETTINGS bring a conformant decoder to the encoder's table and never exceed the "
+         "peer's last value, id maps consistent. TESTED ONLY (differential correspondence of the models with "
+         "the real lshpack.c / h2.c in-process under ASan/UBSan, nghttp2 as second independent HPACK peer, "
+         "independent Python oracles): CONTINUATION splitting, padding, what http_request_parse_header makes "
+         "of the list (handlers' view, 400/431), lshpack's OWN encoder output (decodes at nghttp2 and in the "
+         "model to the list), responses mixing repeated fields with other operations, all single-bit/byte "
+         "corruptions of valid blocks (error, or same list in lshpack, model and nghttp2)",
+    note="trusted: Lean kernel (+propext, Quot.sound, Classical.choice), hand-written models validated by the "
+         "h_hpack correspondence; static table, Huffman encode/decode tables, header-id maps and constants "
+         "are regenerated from lshpack.c/huff-tables.h/h2.c/http_header.c on every run (a changed entry breaks "
+         "a proof obligation); lshpack's encoder is NOT modelled: theorems about the response direction stop "
+         "at the list handed to it (plus a size bound for any lshpack-like per-field choice), that its output "
+         "decodes to that list is correspondence (nghttp2 + model); frames / CONTINUATION are not modelled "
+         "(harness builds them, C05 proves the merge); the content rules of http_request_parse_header are not "
+         "modelled (the glue model only needs: a refused request is still decoded to the end); the response "
+         "API model files every element under hkeyGet(name) (callers passing an id that is not the id of the "
+         "name are outside); lshpack_dec_set_max_capacity is exercised at library level only (lighttpd never "
+         "calls it; no theorem mentions it); HALF_CLOSED_LOCAL trailers and values containing a bare LF are "
+         "not generated; two upstream deviations are modelled as they are (c07_deviation_*)",
     tech="Lean 4 proof over hand-written model + differential correspondence (in-process C harness, "
          "libnghttp2 as second peer)",
     ref="6/C07")
@@ -280,7 +301,7 @@ def oracle(line, out):
     elif op == "resp":
         return oracle_resp(line, out)
     elif op == "req":
-        return None          # (views are checked by oracle_req on the unstripped output)
+        return oracle_req(line, out, views=False)     # (views: oracle_req on the unstripped output in run())
     elif op in ("conn", "connv", "connx"):
         o = out.split(" ")
         if o[-1].startswith("x=") and o[-1] != "x=ok":
@@ -1105,8 +1126,13 @@ def strip_view(out):
     return VIEW_RE.sub("", out)
 
 
-def oracle_req(line, out):
-    """outcome of every HEADERS sequence and views of the served requests"""
+def tok_kind(t):
+    """new:5!9 -> new!9 (what was done with the block + the GOAWAY it caused)"""
+    return t.split(":")[0].split("!")[0].rstrip("~") + ("!" + t.split("!")[1] if "!" in t else "~" if t.endswith("~") else "")
+
+
+def oracle_req(line, out, views=True):
+    """outcome of every HEADERS sequence and (views=True: unstripped output) views of the served requests"""
     ent = REQ_EXPECT.get(line)
     if ent is None:
         return None
@@ -1118,7 +1144,9 @@ def oracle_req(line, out):
     if got != outs:
         k = next((i for i in range(min(len(got), len(outs))) if got[i] != outs[i]), min(len(got), len(outs)))
         return "h2_recv_headers: header block not handled as it must be for the HPACK state (%s instead of %s)" % (
-            (got[k] if k < len(got) else "nothing").split(":")[0], (outs[k] if k < len(outs) else "nothing").split(":")[0])
+            tok_kind(got[k]) if k < len(got) else "nothing", tok_kind(outs[k]) if k < len(outs) else "nothing")
+    if not views:
+        return None
     for i, e in exp.items():
         if i >= len(o) or not o[i].startswith("new:"):
             continue
@@ -1194,6 +1222,30 @@ def near_limit_response(rng, srvtag):
                           ",".join("%s%s:%s" % (o, C.hx(k), C.hx(v)) for o, k, v in ops))
 
 
+def near_limit_many(rng, srvtag):
+    """a response of ~250 fields with long incompressible names and values: HPACK needs 5 octets per field
+    where the size check counts 4, so the encoded block is LARGER than 64 KiB although the check passes"""
+    overhead = 14 + 37 + (17 if srvtag else 0)
+    target = 65535 + rng.choice([-300, -40, -3, -1, 0, 0, 1, 5, 200])
+    ops, total, i = [], overhead, 0
+    while True:
+        n = b"x%d" % i + bytes(rng.choice(b"^|~`") for _ in range(rng.randint(127, 140)))
+        v = bytes(rng.choice(INCOMPRESSIBLE) for _ in range(rng.randint(127, 140)))
+        i += 1
+        if total + len(n) + len(v) + 4 > target - 140:
+            # last field: land on the target
+            vlen = target - total - len(n) - 4
+            if vlen < 1:
+                break
+            v = bytes(rng.choice(INCOMPRESSIBLE) for _ in range(vlen))
+            ops.append(("s", n, v))
+            break
+        ops.append(("s", n, v))
+        total += len(n) + len(v) + 4
+    return "R%d/%d/%s" % (rng.choice([200, 404]), rng.random() < 0.5,
+                          ",".join("%s%s:%s" % (o, C.hx(k), C.hx(v)) for o, k, v in ops))
+
+
 def gen_resp(ctx):
     rng = ctx.rng
     # regression corpus: size update after the peer changed SETTINGS_HEADER_TABLE_SIZE; oversized response
@@ -1201,6 +1253,8 @@ def gen_resp(ctx):
              C.hx(b"X-A"), C.hx(b"1"), C.hx(b"X-Big"), C.hx(b"<" * 65504), C.hx(b"X-B"), C.hx(b"2"), C.hx(b"X-B"), C.hx(b"2")),
          "resp 0 R200/1/s%s:%s,s%s:%s R200/1/s%s:%s" % (
              C.hx(b"X-Big"), C.hx(b"{" * 65480), C.hx(b"X-B"), C.hx(b"2"), C.hx(b"X-B"), C.hx(b"2")),
+         "resp 0 R200/1/s%s:%s %s R200/1/s%s:%s" % (C.hx(b"X-A"), C.hx(b"1"), near_limit_many(random.Random(7), False),
+                                                     C.hx(b"X-A"), C.hx(b"1")),
          "resp 0 C0 R200/1/-", "resp 1 R200/1/s%s:%s C0 C4096 R200/1/s%s:%s R204/0/-" % ((C.hx(b"ETag"), C.hx(b"x1")) * 2),
          "resp 0 C100 C50 C300 R404/0/- C4096 R200/1/-", "resp 0 C5000 R200/1/- C4096 I103/0/- C64 T0/1/s%s:%s" % (C.hx(b"X-T"), C.hx(b"1"))]
     nl_p = 0.0025 if ctx.quick else 0.001           # (each near-limit response is 128 KiB of input)
@@ -1211,7 +1265,7 @@ def gen_resp(ctx):
         for _ in range(rng.choice([1, 1, 2, 3, 6, 12, 25])):
             r = rng.random()
             if r < nl_p:
-                items.append(near_limit_response(rng, srv))
+                items.append(near_limit_many(rng, srv) if rng.random() < 0.3 else near_limit_response(rng, srv))
                 continue
             if r < 0.06:
                 items.append("C%d" % rng.choice([0, 0, 64, 100, 1000, 4096, 4097, 65536, rng.randint(0, 5000)]))
@@ -1253,6 +1307,9 @@ def gen_resp(ctx):
     return L
 
 
+REQ_STREAM = "req(h2_parse_frames/h2_recv_headers -> HPACK state)"
+
+
 def run(ctx):
     exe, err = C.build_harness("h_hpack", libs=HARNESS_LIBS, extra=HARNESS_EXTRA)
     if exe is None:
@@ -1277,10 +1334,10 @@ def run(ctx):
             v = oracle_req(l, o)
             if v and v not in seen:
                 seen.add(v)
-                ctx.violation("oracle:req:" + v, v, {"property": ctx.pid, "kind": "property-oracle",
-                              "correspondence": "req", "input": l, "impl_obs": o, "oracle_verdict": v}, found=True)
-    ctx.differential("req(h2_parse_frames/h2_recv_headers -> HPACK state)", [exe], "hpack", req, oracle, classify,
-                     canon=strip_view)
+                ctx.violation("oracle:%s:%s" % (REQ_STREAM, v), v,
+                              {"property": ctx.pid, "kind": "property-oracle", "correspondence": REQ_STREAM,
+                               "input": l, "impl_obs": o, "oracle_verdict": v}, found=True)
+    ctx.differential(REQ_STREAM, [exe], "hpack", req, oracle, classify, canon=strip_view)
     ctx.dist["request_header_sequences"] = sum(l.count(" H") + l.count(" h") for l in req)
     ctx.dist["blocks_valid"] = sum(l.count(" B") + l.count(" D") for l in valid)
     ctx.dist["histories_valid"] = len(valid)
